@@ -2,4 +2,7 @@
 EXTENDS Ownership
 ObsEmit(op, args, ret, post) ==
     PrintT(ToJson([pre |-> Pre, op |-> op, args |-> args, ret |-> ret, post |-> post]))
+\* value tables: two of the handles carry EQUAL values (identity vs equality), one a different value
+Val2 == <<1, 1>>
+Val3 == <<1, 1, 2>>
 ================================================================================
